@@ -53,13 +53,30 @@ RULE = ('case = one symbolic value (typed/untyped x sealed x partial x accessor 
         'the post-clone history (pg operations on them, append / item assignment on the '
         'plain containers, attribute writes on leaf objects, also on leaf objects stored '
         'directly in the tree). A shallow clone shares leaf values, so nothing inside a '
-        'tuple is mutated after a shallow clone.')
+        'tuple is mutated after a shallow clone. '
+        'Behavioural flags are set through a short flag history before cloning (one node '
+        'gets the accessor flag, one is sealed, then sometimes 1-3 further seal(True) / '
+        'seal(False) / set_accessor_writable calls on any nodes, so that a node may differ '
+        'from its parent: a part re-opened inside a sealed value); DNA / DNASpec / hyper '
+        'values / functors get such flags as well (on the value and on the nodes of those '
+        'classes below it). 8% of the values are put below / beside instances of user '
+        'subclasses of pg.Dict and pg.List (root, nested, in an object field). 6% are values '
+        'whose value specs carry user transforms (an object class with transform fields, a '
+        'typed list with an element / own transform, a typed dict with transform fields; '
+        'normalisers with a fixed point and converters without; root, inside an untyped '
+        'container or an Any field): the clone must be equal to the original (the fresh-copy '
+        'and fixed-point monitors are off for them, since constructors run the transforms). '
+        '30% of the functor clones are taken inside pg.auto_call_functors(True) (the result '
+        'must be a functor like the source).')
 REQUIRED_COUNTERS = ['clones_checked', 'flag_nodes_compared', 'interference_checks',
                      'identity_nodes_compared', 'primed_clones', 'getter_identity_checks',
                      'derived_interference_checks', 'state_interference_checks',
                      'scope_flag_nodes_compared', 'clones_of_own_spec_containers',
                      'in_tuple_identity_checks', 'in_tuple_trees_compared',
-                     'in_tuple_node_mutations', 'plain_member_mutations']
+                     'in_tuple_node_mutations', 'plain_member_mutations',
+                     'subclass_nodes_compared', 'clones_of_special_values_with_flag_history',
+                     'unsealed_below_sealed_nodes_compared',
+                     'clones_of_values_with_user_transforms', 'clones_inside_auto_call_scope']
 ASSUMPTIONS = [
     'values held through pg.Ref are deliberately shared and excluded from the disjointness rule',
     'the observation of the untouched side for non-interference: to_json_str, format(), the '
@@ -73,6 +90,10 @@ ASSUMPTIONS = [
     'a tuple (frozenset) stored in a symbolic value is one non-symbolic leaf value: a deep '
     'clone copies it with everything mutable it holds (as it copies any leaf object), a '
     'shallow clone may share it; the symbolic values inside are roots of trees of their own',
+    'pg.auto_call_functors says what a call of the functor class written by the user means; '
+    'a clone of an existing functor is a functor whatever scope is active',
+    'a user transform is a function of the input of apply (documented); nothing says it has '
+    'to be idempotent: a clone has the values of the original, not transformed ones',
     'a typed container is stored in an object field under the partial policy of the object '
     '(Any2.partial(x=<allow_partial=True list>)): storing it under another policy re-applies '
     'the container, which is C03 matter',
@@ -304,7 +325,7 @@ def flag_history(rng, nodes, p_acc=0.3, p_seal=0.3, p_more=0.3):
       n = rng.choice(nodes)
       q = rng.random()
       if q < 0.45:
-        below = [m for m in nodes if m.sym_parent is not None and m.sym_parent.is_sealed]
+        below = [m for m in nodes if below_sealed(m)]
         if below and rng.random() < 0.7:
           n = rng.choice(below)
         n.seal(False)
@@ -462,9 +483,13 @@ def make_value(rng, tags=None):
   if r < 0.12:
     label, v = special_value(rng)
     # behavioural flags of DNA / DNASpec / hyper values / functors
-    nodes = [n for n, _ in TM.nodes_of(v) if not isinstance(n, pg.Ref)]
-    label += flag_history(rng, nodes, p_acc=0.35, p_seal=0.15, p_more=0.1)
-    return label, v
+    # (set on the value and on the DNA / DNASpec / hyper / functor nodes below
+    # it, not on the containers those classes keep their parts in)
+    nodes = [n for n, keys in TM.nodes_of(v) if not keys or isinstance(
+        n, (pg.DNA, pg.DNASpec, pg.hyper.HyperValue, pg.Functor))]
+    fl = flag_history(rng, nodes, p_acc=0.5, p_seal=0.1, p_more=0.1)
+    tags['special_flags'] = bool(fl)
+    return label + fl, v
   if r < 0.2:
     q = rng.random()
     if q < 0.35:
@@ -620,6 +645,15 @@ def scope_tag(ctx, fname, x, orig, top_pos):
   return f'@{which}/{position(x, top_pos)}'
 
 
+def below_sealed(x):
+  p, hops = x.sym_parent, 0
+  while p is not None and hops < 200:
+    if p.is_sealed:
+      return True
+    p, hops = p.sym_parent, hops + 1
+  return False
+
+
 def compare_nodes(ctx, a, c, deep, via, label, witness, ids_a=None, top_pos='root'):
   """Parallel walk of original and clone (one tree)."""
   cnt = ctx.counters
@@ -634,6 +668,10 @@ def compare_nodes(ctx, a, c, deep, via, label, witness, ids_a=None, top_pos='roo
     ids_a = {id(n) for n, _ in an}
   for (x, keys), (y, _) in zip(an, cn):
     cnt['identity_nodes_compared'] += 1
+    if type(x) in (SubDict, SubList):
+      cnt['subclass_nodes_compared'] += 1
+    if not isinstance(x, pg.Ref) and not x.is_sealed and below_sealed(x):
+      cnt['unsealed_below_sealed_nodes_compared'] += 1
     if type(x) is not type(y):
       if type(x) in (SubDict, SubList):
         # (one mechanism per base class: the harness knows the node is an
@@ -660,10 +698,13 @@ def compare_nodes(ctx, a, c, deep, via, label, witness, ids_a=None, top_pos='roo
       if getattr(ctx, 'clone_scopes', None):
         cnt['scope_flag_nodes_compared'] += 1
       if get(x) != get(y):
-        if (fname == 'is_sealed' and not x.is_sealed and x.sym_parent is not None
-            and x.sym_parent.is_sealed):
+        if fname == 'is_sealed' and not x.is_sealed and below_sealed(x):
           # a part re-opened with seal(False) inside a sealed value
           mech = 'is_sealed@unsealed-below-sealed'
+        elif fname == 'is_sealed' and getattr(ctx, 'sealed_special', None):
+          # a DNA / DNASpec with sealed nodes can only be cloned at all inside
+          # pg.as_sealed(False)
+          mech = f'{fname}/{kind(x)}@sealed-{ctx.sealed_special}'
         else:
           mech = f'{fname}/{kind(x)}{scope_tag(ctx, fname, x, get(x), top_pos)}'
         ctx.violation('flag-differs', mech,
@@ -1070,7 +1111,8 @@ def run_case(ctx, i):
   model_a = None
   if ka == 'DNA':
     ctx.label = 'DNA.set_metadata/set_userdata'
-    model_a = dress_dna(rng, a)
+    with pg.as_sealed(False):       # (the DNA may have been sealed)
+      model_a = dress_dna(rng, a)
     ctx.label = None
     label += f'+metadata{sorted(a.metadata.items())!r}+userdata{sorted(a.userdata.items())!r}'
     label += f'+cloneable{sorted(model_a.meta_cl | model_a.user_cl)!r}'
@@ -1087,6 +1129,17 @@ def run_case(ctx, i):
       n.sym_parent is None or (isinstance(n.sym_parent, (pg.Dict, pg.List))
                                and n.sym_parent.value_spec is None))
                   for n, _ in TM.nodes_of(a))
+  # a DNA / DNASpec / hyper value / functor with a sealed node
+  sealed_special = (ka not in ('List', 'Dict', 'Object')
+                    and any(n.is_sealed for n, _ in TM.nodes_of(a) if not isinstance(n, pg.Ref)))
+
+  ctx.sealed_special = ka if sealed_special and ka in ('DNA', 'DNASpec') else None
+
+  def raised_mech(deep):
+    if sealed_special:
+      return f'sealed/{ka}'
+    return f'{"deep" if deep else "shallow"}/{ka}'
+
   clones = []
   for deep, vias in ((True, DEEP_VIAS), (False, SHALLOW_VIAS)):
     via, fn = rng.choice(vias)
@@ -1113,7 +1166,7 @@ def run_case(ctx, i):
         # pg.allow_partial(False) (partial value refused) is active is left open.
         c['clone_refused_inside_blocking_scope'] += 1
         continue
-      ctx.violation('clone-raised', f'{"deep" if deep else "shallow"}/{kind(a)}',
+      ctx.violation('clone-raised', raised_mech(deep),
                     f'{label} via {via}: {type(e).__name__}: {e!s:.300}', witness)
       continue
     except Exception as e:  # pylint: disable=broad-except
@@ -1124,7 +1177,7 @@ def run_case(ctx, i):
                       f'{label} via {via} inside pg.auto_call_functors(True): '
                       f'{type(e).__name__}: {e!s:.300}', witness)
         continue
-      ctx.violation('clone-raised', f'{"deep" if deep else "shallow"}/{kind(a)}',
+      ctx.violation('clone-raised', raised_mech(deep),
                     f'{label} via {via}: {type(e).__name__}: {e!s:.300}', witness)
       continue
     ctx.label = None
@@ -1151,6 +1204,8 @@ def run_case(ctx, i):
       equal = pg.eq(a, b) and not pg.ne(a, b)
     if tags.get('transform'):
       c['clones_of_values_with_user_transforms'] += 1
+    if tags.get('special_flags'):
+      c['clones_of_special_values_with_flag_history'] += 1
     if not equal:
       # (a value whose specs carry user transforms: one mechanism per kind of
       # node that owns those specs, known by construction)
@@ -1158,6 +1213,12 @@ def run_case(ctx, i):
               else f'{mode}/{kind(a)}')
       ctx.violation('not-equal', mech, f'{label} via {via} ({mode}): clone differs: '
                     f'{js(b)[:300]} vs {snap_a[:300]}', witness)
+      if tags.get('transform'):
+        # (parts of this clone were made anew from transformed values: what
+        # their flags are is a consequence)
+        ctx.clone_scopes = None
+        clones.append((mode, via, b))     # (independence is judged all the same)
+        continue
     if js(a) != snap_a or (state_a is not None and state_obs(a) != state_a):
       ctx.violation('original-changed', f'{mode}/{kind(a)}', f'{label} via {via}', witness)
     if ka == 'DNA':
@@ -1188,7 +1249,7 @@ def run_case(ctx, i):
     getter_identity(ctx, a, b, deep, via, label, witness)
     for clause, detail in TM.tree_ok([b]):
       ctx.violation('clone-tree-' + clause, f'{mode}/{kind(a)}', f'{label} via {via}: {detail}', witness)
-    if deep and not tags.get('transform'):
+    if deep and not tags.get('transform') and not sealed_special:
       # (schema_ok re-applies the specs to detached copies and expects a fixed
       # point, which a user transform need not have)
       for clause, detail in SM.schema_ok([b], tolerate_partial=False):
